@@ -216,6 +216,16 @@ def loop_mc(run):
            "INVARIANT TypeOK\nPROPERTY QuiescentAtDone\nCHECK_DEADLOCK FALSE\n" % ((2, 3) if run.quick else (3, 4)))
     lib.mc(run, "MC_Loop", cfg, {}, need_actions=("Begin", "Take", "ToReady", "Pop", "Polled", "Loop", "Done"),
            label="MC_Loop[3 keys]")
+    # ... and for any number of steps, waiting futures and queue contents: an inductive invariant, by Apalache
+    t0 = lib.time.time()
+    for what, args in (("base", ["--init=LInit", "--length=0"]), ("step", ["--init=IndInit", "--length=1"])):
+        rc, out = lib.sh(["apalache-mc", "check", "--cinit=ConstInit", "--inv=IndInv",
+                          "--out-dir=" + os.path.join(lib.WORK, "apalache")] + args + ["Ind_Loop.tla"],
+                         cwd=lib.SPEC, timeout=900)
+        if "The outcome is: NoError" not in out:
+            raise lib.ToolError(f"Apalache did not discharge ExecLoop's inductive invariant ({what}):\n" + out[-2000:])
+    run.stages.append({"stage": "Ind_Loop[QuiescentAtDone inductive, 3 keys, queue <= 4 generated]", "kind": "apalache-inductive",
+                       "outcome": "NoError (base case and induction step)", "wall_s": round(lib.time.time() - t0, 1)})
 
 
 def loop_suite(run, selftest=False):
